@@ -112,9 +112,16 @@ FLAVOURS = {
 }
 
 
-def build_harness(name, repo_srcs, flavour="asan", extra_flags=()):
+# /repo sources each harness links (current working tree)
+HARNESS_SRCS = {
+    "h_buffers": ["src/byte-buffer.c", "src/octet-ring.c", "src/ring-buffer-iter.c"],
+}
+
+
+def build_harness(name, flavour="asan", extra_flags=()):
     """Compile harness/<name>.c together with the listed /repo sources (current
     working tree).  Cached on the content of every input."""
+    repo_srcs = HARNESS_SRCS[name]
     inc = toolchain_include()
     srcs = [os.path.join(HARNESS, name + ".c")] + [os.path.join(REPO, s) for s in repo_srcs]
     hdrs = [os.path.join(HARNESS, "common.h")]
